@@ -39,6 +39,8 @@ HomogOK(r) ==
         P == VecMatH(Nums(t, r.a), Sq(t, r.b, n + 1))
         w == P[n + 1]
     IN  \/ D!DIsZero(Value(w))                       \* division by an exactly zero weight: not judged
+        \/ D!DCmpAbs(Value(w), Tol(t, w)) <= 0       \* ... nor by a weight below its own rounding bound (it may round to zero:
+                                                     \* 1.8e-15 + 6 - 6 in float), which is cancellation in the input, not in the code
         \/ \A j \in 1..n : WithinQuot(t, r.outs[1].v[j], P[j], w)
 
 TransposeOK(r) ==
